@@ -508,6 +508,13 @@ def run(ctx):
         ctx.count("masks_left" if case["mask_left"] is not None else "no_mask_left")
         ctx.count("masks_right" if case["mask_right"] is not None else "no_mask_right")
         check_case(ctx, model, case)
+    # 12-bit radiometry through zncc: the integral images of the means / variances are running sums from the first
+    # row of the tile; they are exact (float64 sums of integers), hence independent of where the tile starts
+    for i in range(1 if ctx.tier == "quick" else 8):
+        case = gen_case(rng, model, {"measure": "zncc", "cbca": False, "refinement": ["quadratic", "vfit"][i % 2],
+                                     "big_radiometry": True}, 3)
+        ctx.count("zncc_12bit_radiometry_cases")
+        check_case(ctx, model, case)
     if ctx.tier != "quick":
         probe_clipped_bilateral(ctx)       # the same probe on a fresh scene
         # regression of the repaired defect: ssd costs of 12-bit radiometry through cbca (float32 running sums
